@@ -242,12 +242,27 @@ def _vt():
 STRICT = [True]
 
 
+def _creator_name():
+    """class of the object whose code creates the lock (FileStorage, FilePool, MVCCAdapterInstance, DB, ...):
+    yield points carry it, so that a schedule can name 'the n-th release of the pool's lock'"""
+    f = sys._getframe(2)
+    for _ in range(4):
+        if f is None:
+            break
+        if f.f_code.co_filename != __file__:
+            me = f.f_locals.get('self')
+            return type(me).__name__ if me is not None else f.f_code.co_name
+        f = f.f_back
+    return '?'
+
+
 class VLock:
     reentrant = False
 
     def __init__(self):
         self._owner = None
         self._count = 0
+        self.name = _creator_name()
 
     def _me(self):
         s, t = _vt()
@@ -257,7 +272,7 @@ class VLock:
         s, t = _vt()
         me = t if t is not None else threading.get_ident()
         if s is not None and t is not None:
-            s.yield_point('acquire')
+            s.yield_point('acquire:' + self.name)
         while True:
             if self._owner is None:
                 self._owner, self._count = me, 1
@@ -284,7 +299,7 @@ class VLock:
             if s is not None:
                 s.wake(lambda on: on is self)
                 if t is not None:
-                    s.yield_point('release')
+                    s.yield_point('release:' + self.name)
 
     def locked(self):
         return self._owner is not None
